@@ -98,8 +98,11 @@ def _run_variant(st):
                 from openaerostruct.utils.testing import get_two_section_surface
 
                 stage = "mesh"
-                surface, _ = get_two_section_surface()
+                nosym = "multi_ground_no_sym" in defects
+                surface, _ = get_two_section_surface(sym=not nosym)
                 surface["ny"] = [3, 3]
+                if nosym:
+                    surface["groundplane"] = True
                 if "len_meshes" in defects:
                     secs = build_sections(copy.deepcopy(surface))
                     surface["meshes"] = [secs[0]["mesh"]]
@@ -111,11 +114,13 @@ def _run_variant(st):
                 for n, val, u in (("v", 10.0, "m/s"), ("alpha", 5.0, "deg"), ("Mach_number", 0.3, None), ("re", 1e5, "1/m"), ("rho", 1.0, "kg/m**3")):
                     ivc.add_output(n, val=val, units=u)
                 ivc.add_output("cg", val=np.zeros(3), units="m")
+                if nosym:
+                    ivc.add_output("height_agl", val=3.0, units="m")
                 prob.model.add_subsystem("ivc", ivc, promotes=["*"])
                 secs = build_sections(surface)
                 surface["mesh"] = unify_mesh(secs)
                 prob.model.add_subsystem("surface", MultiSecGeometry(surface=surface))
-                prob.model.add_subsystem("aero", AeroPoint(surfaces=[surface]), promotes_inputs=["v", "alpha", "Mach_number", "re", "rho", "cg"])
+                prob.model.add_subsystem("aero", AeroPoint(surfaces=[surface]), promotes_inputs=["v", "alpha", "Mach_number", "re", "rho", "cg"] + (["height_agl"] if nosym else []))
                 prob.model.connect("surface.surface_unification.surface_uni_mesh", "aero.surface.def_mesh")
                 prob.model.connect("surface.surface_unification.surface_uni_mesh", "aero.aero_states.surface_def_mesh")
                 prob.setup()
